@@ -97,5 +97,12 @@ CHECKS["C08"] = dict(engine="atomicsave", design_ref="DESIGN.md §4 C08, A.8, B.
   text="TLC checks OldOrNew / FailKeepsOld / InvalidateOnlyIfReplaced / ShardNeverOverwrites on the design for every fault and crash position of 74 configurations (1-2 faults). Every effect of the real ir.save is then made to fail or the process killed at it, at the system-call boundary with strace -e inject and at Python level through proxies in the module globals of onnx_ir.external_data. Every such run is validated by TLC as a trace (effect order including the finally path, and the observed end state), and TLC evaluates the property formulas on the observed directory and tensor state.",
   note="chunk-granular contents; single process crash (SIGKILL/_exit), no power-loss durability; failures after the replace and a missing destination are outside the statement (weaker reading); parallel schedules as produced by the OS; strace/ptrace, TLC, CPython trusted")
 
+ENGINES.append({"name": "extract", "path": "specs/rewrite/Extract.tla", "serves_properties": ["C18"],
+  "kind_free_text": "declarative region extraction (Need/Frontier/Captures, Herbrand denotation) + transcription of _extractor.py walk/frontier check, the GraphView cloner and the implicit-usage DFS; ExtractMC.tla enumerates all graph forests x all cuts of the bound (ExtractMC_*.cfg); harness/vfh/extract.py"})
+CHECKS["C18"] = dict(engine="extract", design_ref="DESIGN.md §4 C18",
+  technique="TLC exhaustive instance/cut enumeration + theorem checking of Extract.tla + replay of every cut into onnx_ir",
+  text="TLC enumerates every instance (<=3 nodes quick / <=4 thorough, nesting depth <=2) and every cut; on each it checks that the transcribed algorithm yields the least closed node set in original order with the needed initializers, raises iff the frontier is non-empty, preserves the Herbrand denotation, and that the capture DFS equals Captures; every cut is executed on real onnx_ir objects through Graph/Function/GraphView x by object/by name and compared on nodes, order, initializers, raise, object identity, source unchanged and output terms; analyze_implicit_usage is compared with Captures.",
+  note="small scope; sorted well-formed sources; cuts among root values; DenEq in the statement's reading (source values at the boundary); at 4 nodes one output per cut (NeedUnion lemma)")
+
 _PENDING = "check not built yet in this round (specification planned in DESIGN.md §4); not claimed until its TLA+ model and binding exist"
-NOT_APPLICABLE = {p: _PENDING for p in ["C02", "C09", "C11", "C12", "C15", "C16", "C17", "C18"]}
+NOT_APPLICABLE = {p: _PENDING for p in ["C02", "C09", "C11", "C12", "C15", "C16", "C17"]}
